@@ -140,12 +140,14 @@ std::vector<TecmpPayloadPtr> TECMP::Decoder::GetInterfacePayload(const uint8_t* 
     std::size_t busDataOffset = 12;
     payload.setGenericData(payloadData);
 
-    while (busDataOffset + 12 <= size)
+    // Every bus entry is followed by the vendor data whose length the generic part declares
+    const std::size_t entrySize = 12 + static_cast<std::size_t>(payload.getVendorDataLength());
+    while (busDataOffset + entrySize <= size)
     {
         auto tempPayload = payload;
         tempPayload.setBusData(payloadData + busDataOffset, 12);
         payloads.push_back(std::make_shared<Payload>(tempPayload));
-        busDataOffset += 12;
+        busDataOffset += entrySize;
     }
 
     return payloads;
